@@ -49,11 +49,7 @@ def run_batch(job):
     d = workdir("align_", bid)
     try:
         gfa = os.path.join(d, "g.gfa")
-        with open(gfa, "w") as f:
-            for n, s in seq.items():
-                f.write(f"S\t{n}\t{s}\tLN:i:{len(s)}\n")
-            for a, ao, b, bo in links:
-                f.write(f"L\t{a}\t{ao}\t{b}\t{bo}\t0M\n")
+        write_text(gfa, "".join(f"S\t{n}\t{s}\tLN:i:{len(s)}\n" for n, s in seq.items()) + "".join(f"L\t{a}\t{ao}\t{b}\t{bo}\t0M\n" for a, ao, b, bo in links))
         fa = os.path.join(d, "r.fa")
         gaf = os.path.join(d, "a.gaf")
         lines = []
